@@ -77,7 +77,7 @@ def run(ctx):
     want = {"connfail": "502", "tlsfail": "502", "timeout": "504", "rejected": "the upstream proxy's status", "other": "5xx", "refusal": "4xx/5xx"}
     skeys = set()
     for c in sorted(s_bad_p, key=lambda c: len(c.get("name", ""))):
-        k = "status:%s" % c.get("name")
+        k = "status:%s" % str(c.get("name")).split("#")[0]
         skeys.add(c.get("name"))
         ctx.violation(k, {"kind": "status", "name": c.get("name")}, True,
                       "fault class '%s' must be answered with %s and a complete well-formed response; %s got: %s %s, X-Forwarder-Error: %s" % (
